@@ -99,21 +99,27 @@ def akai_payload3():
 
 
 def akai_payload4():
-    """a DAMAGED image: the second volume's entry points to a start sector outside the allocation table, so that volume
+    """a DAMAGED image (its second partition holds a volume with one unparsable file among good ones): the second volume's entry points to a start sector outside the allocation table, so that volume
     cannot be realised; requests that touch it fail -- and must fail the same way whatever happened before"""
     import struct
     spec = {"parts": [{"vols": [
         {"name": "GOOD", "dir": [3], "files": [{"name": "SMP", "n": 300, "chain": [4], "seq": 1}, {"name": "TWO", "n": 200, "chain": [5], "seq": 2}]},
         {"name": "BAD", "dir": [6], "files": [{"name": "LOST", "n": 100, "chain": [7], "seq": 3}]},
-        {"name": "LAST", "dir": [8], "files": [{"name": "END", "n": 150, "chain": [9], "seq": 4}]}]}]}
+        {"name": "LAST", "dir": [8], "files": [{"name": "END", "n": 150, "chain": [9], "seq": 4}]}]},
+        # second partition: a volume that CAN be realised but holds one entry whose file header is wiped (sample id 0):
+        # only that file is lost, and the listing of the others must not depend on how often the volume was looked at
+        {"vols": [{"name": "HOLE", "dir": [3], "files": [{"name": "KICK", "n": 120, "chain": [4], "seq": 5}, {"name": "WIPED", "n": 90, "chain": [5], "seq": 6},
+                                                         {"name": "SNARE", "n": 110, "chain": [6], "seq": 7}]}]}]}
     img, layout = A.build_akai(A.model_from_spec(spec))
     b = bytearray(img)
     struct.pack_into("<H", b, layout["p0.vol1.entry"][0] + 14, 0x3000)
+    b[layout["p1.vol0.file1.data"][0]] = 0
     return bytes(b)
 
 
 def akai4_paths():
-    return ["", "A:", "A:/GOOD", "A:/BAD", "A:/LAST", "A:/GOOD/SMP", "A:/BAD/LOST", "A:/LAST/END", "A:/BAD/x", "nope"]
+    return ["", "A:", "A:/GOOD", "A:/BAD", "A:/LAST", "A:/GOOD/SMP", "A:/BAD/LOST", "A:/LAST/END", "A:/BAD/x", "nope",
+            "B:", "B:/HOLE", "B:/HOLE/KICK", "B:/HOLE/SNARE", "B:/HOLE/WIPED"]
 
 
 def discover_paths(fmt, depth=3):
